@@ -24,6 +24,7 @@ HERE = os.path.dirname(os.path.abspath(__file__))
 VERIF = os.path.normpath(os.path.join(HERE, ".."))
 sys.path.insert(0, HERE)
 import gen  # noqa: E402
+import pty_xlate  # noqa: E402
 import props  # noqa: E402
 
 CACHE = os.path.join(VERIF, ".cache")
@@ -370,10 +371,16 @@ def run_cases(cases, which="core", jobs=1):
             rc1, o = run([binp], inp=c + "\n", timeout=600)
             ol = marked(o)
             impl_lines.append(ol[0] if rc1 == 0 and len(ol) == 1 else "harness-died")
-    mlines = run_driver(cases)
+    # `pty` cases: the expected value comes from the model of the corresponding in-memory session
+    # (tools/pty_xlate.py); every alternative the model admits is translated
+    xl = [c.startswith("pty ") for c in cases]
+    mlines = run_driver([pty_xlate.mem_case(c) if x else c for c, x in zip(cases, xl)])
     model, spec = [], []
-    for l in mlines:
+    for c, x, l in zip(cases, xl, mlines):
         a, _, b = l.partition(" ## ")
+        if x:
+            a = " || ".join(sorted({pty_xlate.expected(c, alt) for alt in a.split(" || ")}))
+            b = " || ".join(sorted({pty_xlate.expected(c, alt) for alt in b.split(" || ")}))
         model.append(a)
         spec.append(b)
     return impl_lines, model, spec
